@@ -15,6 +15,21 @@ inductive J
   | obj (kv : List (String × J))
   deriving Repr
 
+/-- a scalar setting of a codec configuration -/
+inductive Scalar
+  | num (n : Int)
+  | str (s : String)
+  deriving DecidableEq, Repr
+
+def Scalar.toJ : Scalar → J
+  | .num n => .num n
+  | .str s => .str s
+
+def J.asScalar : J → Option Scalar
+  | .num n => some (.num n)
+  | .str s => some (.str s)
+  | _ => none
+
 /-- a `ZarrArraySpec` as stored in the schema file -/
 structure ArraySpec where
   name : String
@@ -24,7 +39,7 @@ structure ArraySpec where
   dimensions : List String
   description : String
   vcfField : Option String
-  compressor : List (String × Int)      -- codec config (numeric settings) …
+  compressor : List (String × Scalar)   -- codec config (`cname`, `clevel`, `shuffle`, `blocksize`, …) …
   compressorId : String                 -- … and its id / cname
   filters : List String
   deriving DecidableEq, Repr
@@ -46,7 +61,7 @@ def ArraySpec.toJ (a : ArraySpec) : J :=
   .obj [("name", .str a.name), ("dtype", .str a.dtype), ("shape", natsJ a.shape), ("chunks", natsJ a.chunks),
         ("dimensions", strsJ a.dimensions), ("description", .str a.description),
         ("vcf_field", match a.vcfField with | none => .null | some s => .str s),
-        ("compressor", .obj (("id", .str a.compressorId) :: a.compressor.map fun (k, v) => (k, .num v))),
+        ("compressor", .obj (("id", .str a.compressorId) :: a.compressor.map fun (k, v) => (k, v.toJ))),
         ("filters", strsJ a.filters)]
 
 def Schema.toJ (s : Schema) : J :=
@@ -83,7 +98,7 @@ def ArraySpec.ofJ (j : J) : Option ArraySpec := do
   let comp ← j.get "compressor"
   let cid ← (← comp.get "id").asStr
   let cfg ← match comp with
-    | .obj (_ :: rest) => rest.mapM fun (k, v) => v.asInt.map fun n => (k, n)
+    | .obj (_ :: rest) => rest.mapM fun (k, v) => v.asScalar.map fun n => (k, n)
     | _ => none
   let filters ← (← j.get "filters").asStrs
   pure { name := name, dtype := dtype, shape := shape, chunks := chunks, dimensions := dims, description := descr,
